@@ -55,10 +55,27 @@ fn scene(t: &Target, faults: &[Fault]) -> String {
         .iter()
         .map(|f| {
             let pos = posclass(t, f.q());
-            let class = f.class_tag();
+            let mut class = f.class_tag();
+            if let Fault::Resp { q, mv: Move::Reowned { parent, src, target, .. } } = f {
+                // what kind of genuine RRset was re-owned
+                let probe = Script::new(t.hier.clone(), vec![]);
+                let query = Query::new(name_of(q), RecordType::from(q.1));
+                if let Some((_, (so, st), _)) = probe.reowned_parts(&query, *parent, *src, *target) {
+                    let answer = matches!(f, Fault::Resp { mv: Move::Reowned { answer: true, .. }, .. });
+                    let key_type = matches!(st, RecordType::DS | RecordType::DNSKEY);
+                    class = if answer {
+                        // in the answer section only "key material or not" matters
+                        format!("reowned-genuine-rrset({},answer)", if key_type { "DS/DNSKEY" } else { "non-key" })
+                    } else if matches!(st, RecordType::NSEC | RecordType::NSEC3) {
+                        format!("reowned-genuine-rrset(NSEC*,{},authority)", if so.is_wildcard() { "wildcard-owner" } else { "plain-owner" })
+                    } else {
+                        format!("reowned-genuine-rrset({},authority)", if key_type { "DS/DNSKEY" } else { "other" })
+                    };
+                }
+            }
             // at an NS position (the validator's unvalidated zone-cut walk) every way of putting an
             // NS RRset for the asked name into the response is the same thing
-            if pos == "NS" && (class.starts_with("forge-") || class.starts_with("inject")) {
+            if pos == "NS" && (class.starts_with("forge-") || class.starts_with("inject") || class.starts_with("reowned-")) {
                 "fake-ns-answer@NS".to_string()
             } else {
                 format!("{class}@{pos}")
@@ -77,7 +94,7 @@ fn server_scene(t: &Target, faults: &[Fault]) -> String {
     let mut skip = false;
     for (i, ch) in s.char_indices() {
         // drop "(TYPE)" after drop-record / change-owner / change-rdata / strip-rrsigs
-        if ch == '(' && (s[..i].ends_with("drop-record") || s[..i].ends_with("change-owner") || s[..i].ends_with("change-rdata") || s[..i].ends_with("strip-rrsigs")) {
+        if ch == '(' && (s[..i].ends_with("drop-record") || s[..i].ends_with("change-owner") || s[..i].ends_with("change-rdata") || s[..i].ends_with("strip-rrsigs") || s[..i].ends_with("reowned-genuine-rrset")) {
             skip = true;
             depth = 1;
             continue;
@@ -225,6 +242,10 @@ fn main() {
          an insecure zone, attacker key with the zone key's algorithm and key tag}; (L2) at every position: forge-unsigned, forge-signed-by \
          K, forge unsupported-algorithm DS, replay the zone's genuine wildcard RRset for the query name, strip answer/authority/both, \
          serve the records / the RRSIGs of an RRset in another order (all orders up to 3 records), \
+         replace the response by a GENUINE signed RRset of the answering zone or its parent, re-owned (all records and RRSIGs, RDATA \
+         and signatures untouched) to {query name, secure delegation point, existing signed name, next-closer name} [quick: wildcard-owned \
+         and apex NSEC/NSEC3 and the SOA, authority section; thorough: every NSEC/NSEC3 RRset and one RRset of every other type, \
+         authority and answer section], \
          rcode := 0/2/3, genuine SOA + forged unsigned apex NSEC, replace-by-denial(R) for R in {SOA,NS,A,NSEC,NSEC3,DS,DNSKEY} x owner \
          {qname, zone apex, parent apex, name in an insecure zone, name in a secure sibling} x {unsigned, genuine, attacker-signed}. All \
          singles; pairs = (forge/replay/strip move at the validator's query) x (every L2 move [thorough: and every L1 fault] at every other \
@@ -331,7 +352,7 @@ fn main() {
             let mut new = vec![];
             for (k, m) in &t.positions[done_positions[ti]..] {
                 let q = Query::new(name_of(k), RecordType::from(k.1));
-                new.extend(faults::singles_at(&probe, &q, m));
+                new.extend(faults::singles_at(&probe, &q, m, thorough));
             }
             done_positions[ti] = t.positions.len();
             for f in &new {
